@@ -128,9 +128,7 @@ def macro_grammars(seed=0):
             Alt([Sp, Tm("w")], cond=("S", "!~", "^a")),
             Alt([Sp, Tm("w"), Tm("x")], cond=("S", "~~", "b$")),
         ], params=["S"], ty="()"),
-        NT("Top", [A(Mac("Kw", (Tm("a"),)), "Top2")], pub=True),
-        NT("Top2", [A(Mac("Kw", (Tm("b"),)), "Top3"), A()]),
-        NT("Top3", [A(Mac("Kw", (Tm("ab"),)))]),
+        NT("Top", [A(Mac("Kw", (Tm("a"),))), A(Mac("Kw", (Tm("b"),)), "y"), A(Mac("Kw", (Tm("ab"),)), Rep(Mac("Kw", (Tm("a"),)), "?"))], pub=True),
     ], tags=["conditions == != ~~ !~", "substring vs anchored regex", "three instantiations of one macro"]))
 
     Aa, Bb = Nt("A"), Nt("B")
